@@ -1,6 +1,7 @@
 """C10 -- derived circuits share parameters with their operands at all times."""
 from __future__ import annotations
 
+import json
 import random
 import traceback
 
@@ -157,6 +158,24 @@ def cases(tier, seed):
                 d["semiring"] = s
                 if _fix(d) is d:
                     out.append(d)
+        # the operator pipelines of C03-C07 (one semiring each), minus the members marked heavy there
+        from checks import C03, C04, C05, C06, C07
+
+        seen = {json.dumps(c["circuit"], sort_keys=True) for c in allc}
+        extra = []
+        for mod in (C03, C04, C05, C06, C07):
+            for c in mod._all(tier):
+                if c.get("symbolic_obs") or (hasattr(mod, "_heavy") and mod._heavy(c)):
+                    continue
+                k = json.dumps(c["circuit"], sort_keys=True)
+                if c["circuit"].get("kind") == "pipe" and k not in seen:
+                    seen.add(k)
+                    extra.append((c, mod is C05))
+        for i, (c, deriv) in enumerate(extra):
+            d = dict(c)
+            # derivatives can be identically zero (log 0 in the log-space semirings): linear semiring only
+            d["semiring"] = "sum-product" if deriv else sems[(i + seed) % 3]
+            out.append(_fix(d))
     return out
 
 
